@@ -17,7 +17,7 @@ HOLDS, VIOLATION, UNRECOGNISED = "HOLDS", "VIOLATION", "UNRECOGNISED"
 
 class Result:
     def __init__(self, rule, func, role, status, detail="", where="", witness=None,
-                 nontrivial=True, facts=None, note=False):
+                 nontrivial=True, facts=None, note=False, semantic=False):
         self.rule = rule            # R-GUARD ...
         self.func = func            # 'ersatz.substitute'
         self.role = role            # structural role of the site (stable across line moves)
@@ -28,6 +28,7 @@ class Result:
         self.nontrivial = nontrivial
         self.facts = facts or []    # what the rule used (path constraints, matched constructs)
         self.note = note            # unanchored sweep match: reported, never a verdict
+        self.semantic = semantic    # verdict derived by an engine (constraints, aliasing, typestate, terms, paths), not by comparing spellings
 
     @property
     def key(self):
@@ -48,6 +49,13 @@ def holds(rule, fi, role, detail="", node=None, **kw):
 
 
 def violation(rule, fi, role, detail="", node=None, **kw):
+    return Result(rule, _q(fi), role, VIOLATION, detail, _w(fi, node), **kw)
+
+
+def named(rule, fi, role, detail="", node=None, **kw):
+    """a VIOLATION for a recognised deviation: the rule found a specific construct it knows to be wrong (positive evidence), as opposed to
+    not finding the construct it expected; exempt from the rewrite gate"""
+    kw.setdefault("semantic", True)
     return Result(rule, _q(fi), role, VIOLATION, detail, _w(fi, node), **kw)
 
 
@@ -138,6 +146,33 @@ def run_property(pid, tier="quick", replay=None, repo_root=None, write_evidence=
             equiv_note = "equivalence fallback unavailable: %s" % e
         except Exception as e:       # the fallback must never turn a verdict into a crash
             equiv_note = "equivalence fallback crashed (%s: %s): verdicts unchanged" % (type(e).__name__, str(e)[:120])
+    # spelling-based rules cannot tell a refactoring from a defect once a function has been rewritten: their VIOLATIONs are kept only
+    # while every changed function is a first-order edit of its reference version (a deletion, or one replaced statement)
+    sem_rules = set(getattr(mod, "SEMANTIC_RULES", ()))
+    import re as _re
+    # a finding is 'absence-type' when it says that an expected construct was not found / does not have the expected spelling; a finding that
+    # names a specific bad construct it did find (a recognised deviation) is positive evidence and is not gated
+    _ABS = _re.compile(r"(^|\W)(no |not found|never |missing|is not |are not |does not |do not |did not |without |lacks |lack |expected )")
+    for r in verdicts:
+        if r.status == VIOLATION and not (r.semantic or r.rule in sem_rules) and not _ABS.search(r.detail):
+            r.semantic = True
+    gate_note = None
+    if any(r.status == VIOLATION and not (r.semantic or r.rule in sem_rules) for r in verdicts) and not os.environ.get("TMVERIF_NO_GATE"):
+        try:
+            from . import canon
+            ref = Repo(canon.REFERENCE_DIR)
+            rewritten = canon.rewritten_functions(repo, ref)
+            if rewritten:
+                n_dn = 0
+                for r in verdicts:
+                    if r.status == VIOLATION and not (r.semantic or r.rule in sem_rules):
+                        r.status = UNRECOGNISED
+                        r.detail = "[spelling-based rule; %s rewritten beyond a first-order edit, so this is not reported as a violation] %s" % (
+                            ", ".join(rewritten[:3]), r.detail)
+                        n_dn += 1
+                gate_note = "%d spelling-based finding(s) downgraded to ANALYSIS-ERROR: rewritten functions %s" % (n_dn, ", ".join(rewritten[:6]))
+        except AnalysisError as e:
+            gate_note = "rewrite gate unavailable: %s" % e
     known, _fixed = load_known()
     known = known.get(pid, {})
     viol = [r for r in verdicts if r.status == VIOLATION]
@@ -169,6 +204,8 @@ def run_property(pid, tier="quick", replay=None, repo_root=None, write_evidence=
         say("canonicalised towards the reference: %s" % "; ".join("%s [%s]" % (k, ", ".join(v[:6])) for k, v in sorted(clog.items())[:8]))
     if equiv_note:
         say("equivalence: %s" % equiv_note)
+    if gate_note:
+        say("rewrite gate: %s" % gate_note)
     for r in verdicts:
         say("  [%s] %-10s %s  (%s) %s" % (r.status, r.rule, r.func + " :: " + r.role, r.where, r.detail))
     for r in notes:
